@@ -58,7 +58,7 @@ Proof.
 Qed.
 
 Lemma py_week_not_rejected y w : 1 <= w <= iso_weeks_in_year y ->
-  (w >? 53) || ((w >? 52) && negb (py_is_long_year y)) = false.
+  (w <? 1) || (w >? 53) || ((w >? 52) && negb (py_is_long_year y)) = false.
 Proof. intros H. rewrite py_is_long_year_spec. pose proof (iso_weeks_52_53 y). lia. Qed.
 
 Theorem py_week_spec y w wd : 1001 <= y <= 9998 -> 1 <= w <= iso_weeks_in_year y -> 1 <= wd <= 7 ->
@@ -66,7 +66,7 @@ Theorem py_week_spec y w wd : 1001 <= y <= 9998 -> 1 <= w <= iso_weeks_in_year y
 Proof.
   intros Hy Hw Hwd. unfold py_get_week, py_iso_week_core.
   rewrite py_week_not_rejected by assumption.
-  replace (wd >? 7) with false by lia.
+  replace ((wd <? 1) || (wd >? 7)) with false by lia.
   rewrite py_week_day_spec by lia. change py_days_in_year with days_in_year.
   pose proof (iso_weeks_52_53 y) as W.
   pose proof (week_ordinal_bounds y w wd ltac:(lia) Hwd) as B.
@@ -83,18 +83,20 @@ Proof.
     + rewrite py_strptime_ok by lia. do 2 f_equal. lia.
 Qed.
 
-Theorem py_week_reject y w wd : (w > iso_weeks_in_year y /\ 1 <= w) \/ wd > 7 ->
+(* every impossible week date is refused: week 00, a week beyond the last week of the year, weekday 0, weekday above 7
+   (finding week-zero-accepted repaired: the lower bounds are checked too) *)
+Theorem py_week_reject y w wd : (w < 1 \/ w > iso_weeks_in_year y) \/ (wd < 1 \/ wd > 7) ->
   py_get_week y w (Some wd) = Raise E_ParserError.
 Proof.
   intros H. unfold py_get_week, py_iso_week_core. rewrite py_is_long_year_spec. pose proof (iso_weeks_52_53 y).
-  destruct ((w >? 53) || (w >? 52) && negb (iso_weeks_in_year y =? 53)) eqn:A; [reflexivity|].
-  destruct (wd >? 7) eqn:B; [reflexivity|]. lia.
+  destruct ((w <? 1) || (w >? 53) || (w >? 52) && negb (iso_weeks_in_year y =? 53)) eqn:A; [reflexivity|].
+  destruct ((wd <? 1) || (wd >? 7)) eqn:B; [reflexivity|]. lia.
 Qed.
 
-(* week 00 and weekday 0 are NOT rejected (both backends): the property's "impossible weeks are rejected" fails *)
-Theorem week_zero_accepted_refuted :
-  py_get_week 2021 0 (Some 1) = Ok (2020, 12, 28) /\ rs_iso_to_ymd 2021 0 1 = Some (2020, 12, 28) /\
-  py_get_week 2021 1 (Some 0) = Ok (2021, 1, 3) /\ rs_iso_to_ymd 2021 1 0 = Some (2021, 1, 3).
+(* the former witnesses of finding week-zero-accepted (they used to come back as 2020-12-28 and 2021-01-03) *)
+Theorem week_zero_rejected_witnesses :
+  py_get_week 2021 0 (Some 1) = Raise E_ParserError /\ rs_iso_to_ymd 2021 0 1 = None /\
+  py_get_week 2021 1 (Some 0) = Raise E_ParserError /\ rs_iso_to_ymd 2021 1 0 = None.
 Proof. vm_compute. repeat split; reflexivity. Qed.
 
 (* the pure-Python week conversion goes through strptime("%Y-%j"), whose %Y wants four digits: years below 1000 fail *)
@@ -136,8 +138,8 @@ Theorem rs_week_spec y w wd : 1 <= y -> 1 <= w <= iso_weeks_in_year y -> 1 <= wd
 Proof.
   intros Hy Hw Hwd. unfold rs_iso_to_ymd.
   rewrite rs_long_year_spec by lia. pose proof (iso_weeks_52_53 y) as W.
-  replace ((w >? 53) || (w >? 52) && negb (iso_weeks_in_year y =? 53)) with false by lia.
-  replace (wd >? 7) with false by lia.
+  replace ((w =? 0) || (w >? 53) || (w >? 52) && negb (iso_weeks_in_year y =? 53)) with false by lia.
+  replace ((wd =? 0) || (wd >? 7)) with false by lia.
   rewrite rs_week_day_spec by lia.
   pose proof (week_ordinal_bounds y w wd ltac:(lia) Hwd) as B.
   pose proof (week_ordinal_upper y w wd Hw Hwd) as U.
@@ -172,9 +174,30 @@ Proof.
   - apply rs_week_spec; try assumption; lia.
 Qed.
 
-Theorem rs_week_reject y w wd : 1 <= y -> (w > iso_weeks_in_year y /\ 1 <= w) \/ wd > 7 -> rs_iso_to_ymd y w wd = None.
+(* iso_week and iso_day are u32 in the compiled parser: on that domain every impossible week date is refused *)
+Theorem rs_week_reject y w wd : 1 <= y -> 0 <= w -> 0 <= wd -> (w < 1 \/ w > iso_weeks_in_year y) \/ (wd < 1 \/ wd > 7) ->
+  rs_iso_to_ymd y w wd = None.
 Proof.
-  intros Hy H. unfold rs_iso_to_ymd. rewrite rs_long_year_spec by lia. pose proof (iso_weeks_52_53 y).
-  destruct ((w >? 53) || (w >? 52) && negb (iso_weeks_in_year y =? 53)) eqn:A; [reflexivity|].
-  destruct (wd >? 7) eqn:B; [reflexivity|]. lia.
+  intros Hy Hw Hwd H. unfold rs_iso_to_ymd. rewrite rs_long_year_spec by lia. pose proof (iso_weeks_52_53 y).
+  destruct ((w =? 0) || (w >? 53) || (w >? 52) && negb (iso_weeks_in_year y =? 53)) eqn:A; [reflexivity|].
+  destruct ((wd =? 0) || (wd >? 7)) eqn:B; [reflexivity|]. lia.
+Qed.
+
+(* accepted exactly when the week date exists (both backends; the Python statement within strptime's year range) *)
+Theorem rs_week_accepts_iff y w wd : 1 <= y -> 0 <= w -> 0 <= wd ->
+  (rs_iso_to_ymd y w wd <> None <-> 1 <= w <= iso_weeks_in_year y /\ 1 <= wd <= 7).
+Proof.
+  intros Hy Hw Hwd. split.
+  - intros NN. destruct (Z_le_dec 1 w), (Z_le_dec w (iso_weeks_in_year y)), (Z_le_dec 1 wd), (Z_le_dec wd 7); try lia;
+      exfalso; apply NN; apply rs_week_reject; lia.
+  - intros [A B]. rewrite rs_week_spec by assumption. discriminate.
+Qed.
+
+Theorem py_week_accepts_iff y w wd : 1001 <= y <= 9998 ->
+  ((exists r, py_get_week y w (Some wd) = Ok r) <-> 1 <= w <= iso_weeks_in_year y /\ 1 <= wd <= 7).
+Proof.
+  intros Hy. split.
+  - intros [r E]. destruct (Z_le_dec 1 w), (Z_le_dec w (iso_weeks_in_year y)), (Z_le_dec 1 wd), (Z_le_dec wd 7); try lia;
+      rewrite py_week_reject in E by lia; discriminate.
+  - intros [A B]. eexists. apply py_week_spec; assumption.
 Qed.
